@@ -36,8 +36,23 @@ class HarnessBaseExc(BaseException):
     pass
 
 
+class TracerBug(Exception):
+    pass
+
+
 EXC = {'ExcE': ExcE, 'ExcE2': ExcE2, 'ExcF': ExcF, 'ExcU': ExcU, 'TimeoutError': TimeoutError, 'ConnectionError': ConnectionError,
-       'HarnessBaseExc': HarnessBaseExc, 'CancelledError': asyncio.CancelledError}
+       'HarnessBaseExc': HarnessBaseExc, 'CancelledError': asyncio.CancelledError, 'Exception': Exception, 'ValueError': ValueError,
+       'KeyboardInterrupt': KeyboardInterrupt, 'SystemExit': SystemExit, 'GeneratorExit': GeneratorExit}
+
+
+def _library_exceptions() -> None:
+    # exceptions of the library itself, as a transport raises them (the shipped backends raise DeserializationError for an unexpected
+    # content type) and as a retry strategy may list them - directly, through a base class or through a catch-all
+    import pjrpc.common.exceptions as le
+    EXC.update({'LibBaseError': le.BaseError, 'LibDeserializationError': le.DeserializationError, 'LibIdentityError': le.IdentityError})
+
+
+_library_exceptions()
 
 
 # ---- clients ----------------------------------------------------------------------------------------
@@ -272,6 +287,15 @@ def make_tracers(n: int, log: List[List[Any]], style: str = 'full'):
             t.on_error = lambda tc, rq, er, i=i: log.append(['error', i, id(tc), tc, rq, er])                      # type: ignore[method-assign]
             out.append(t)
         return out
+    if style == 'end-raises':
+        # a tracer with a bug of its own: the FIRST tracer's on_request_end raises after recording (differential checks only: what
+        # happens next is not specified, but it must be the same on both client halves)
+        class RecEndRaises(RecAll):
+            def on_request_end(self, trace_context, request, response):
+                super().on_request_end(trace_context, request, response)
+                if self.idx == 0:
+                    raise TracerBug('on_request_end failed')
+        return [RecEndRaises(i) for i in range(n)]
     if style == 'logging-subclass-last' and n:
         # the LAST configured tracer extends the library's LoggingTracer (an application adding its own bookkeeping to it): it records and
         # then lets the library class log; its place in the configuration is the last one
